@@ -99,6 +99,7 @@ def bounded_if(budget, rng):
 
 CONTRACTS = {
     'TeX.processIfContent': dict(check=check_prog, gen=gen_prog, small=small_prog),
+    'TeX.processIfContent/select': dict(check=check_prog, gen=gen_prog, small=small_prog),
     'ifnum.invoke': dict(check=check_prog, gen=gen_prog),
     'ifodd.invoke': dict(check=check_prog, small=lambda: (dict(src='\\ifodd %d\\relax aq\\else bq\\fi ' % n, exp='aq' if n % 2 == 1 else 'bq') for n in range(-5, 6))),
 }
